@@ -349,7 +349,9 @@ func (c *Conn) handleMail(arg string) {
 
 	opts := &MailOptions{}
 
-	c.binarymime = false
+	// Only an accepted MAIL changes the connection's state: a refused one must not
+	// alter the BINARYMIME flag of the transaction that is (or will be) open.
+	binarymime := false
 	// This is where the Conn may put BODY=8BITMIME, but we already
 	// read the DATA as bytes, so it does not effect our processing.
 	for key, value := range args {
@@ -387,7 +389,7 @@ func (c *Conn) handleMail(arg string) {
 					c.writeResponse(504, EnhancedCode{5, 5, 4}, "BINARYMIME is not implemented")
 					return
 				}
-				c.binarymime = true
+				binarymime = true
 			case Body7Bit, Body8BitMIME:
 				// This space is intentionally left blank
 			default:
@@ -450,6 +452,7 @@ func (c *Conn) handleMail(arg string) {
 
 	c.writeResponse(250, EnhancedCode{2, 0, 0}, fmt.Sprintf("Roger, accepting mail from <%v>", from))
 	c.fromReceived = true
+	c.binarymime = binarymime
 }
 
 // This regexp matches 'hexchar' token defined in
